@@ -387,41 +387,91 @@ pub proof fn lemma_names_seq(vs: Seq<asp::Variable>, x: asp::Variable)
 //@     }
 //@end
 
-// ---- mu: natural where possible, tau* otherwise (callees are stand-ins that record their arguments) ----
-pub uninterp spec fn spec_natural_rule(r: asp::Rule) -> Option<Formula>;
-pub uninterp spec fn spec_tau_star_rule(r: asp::Rule, globals: Seq<String>) -> Formula;
-pub uninterp spec fn spec_globals(p: asp::Program) -> Seq<String>;
-pub mod natural {
-    use super::*;
-    #[verifier::external_body]
-    pub fn natural_rule(r: &asp::Rule) -> (o: Option<Formula>) ensures o == spec_natural_rule(*r) { unimplemented!() }
+//@fn src/translating/formula_representation/natural.rs :: fn natural_constraint
+//@ .ret r
+//@ .spec
+//@     ensures is_falsity(r),
+//@end
+
+/// size of the head: the i32 search counter of fresh_variables_for_head_atom (recorded assumption on input size)
+pub open spec fn small_head(h: asp::Head) -> bool { terms_var_occ(head_args(h), head_args(h).len() as int) < 0x7fff_ffff }
+
+//@fn src/translating/formula_representation/natural.rs :: fn natural_head
+//@ .ret r
+//@ .spec
+//@     requires small_head(*h),
+//@     ensures r matches Some(hf) ==> nat_head_of(hf, *h, int_vars@),
+//@end
+
+impl Formula {
+//@fn src/syntax_tree/fol/sigma_0.rs :: impl Formula :: fn universal_closure
+//@ .ret r
+//@ .spec
+//@     ensures r == spec_ucl(self),
+//@end
 }
+
+//@fn src/translating/formula_representation/natural.rs :: fn natural_rule
+//@ .ret res
+//@ .spec
+//@     requires small_head(r.head),
+//@     // C08: whenever the natural translation accepts a rule, the sentence it produces is closed and is true in <H,T> (H included in T, either world)
+//@     // exactly when every ground instance of the rule is satisfied — the meaning tau* gives the rule (rule_ok, proved for tau_star_rule in unit tau)
+//@     ensures res matches Some(f) ==> rule_ok(f, *r),
+//@ .hint before "Some( (fol::Formula::BinaryFormula {"
+//@     proof {
+//@         assert forall|mx: Formula| nat_matrix(mx, *r, int_vars@) implies #[trigger] rule_ok(spec_ucl(mx), *r) by { lemma_nat_rule(spec_ucl(mx), mx, *r, int_vars@); }
+//@     }
+//@end
+
+/// every rule of the program has a head of moderate size
+pub open spec fn small_program(p: asp::Program) -> bool { forall|i: int| 0 <= i < p.rules@.len() ==> small_head((#[trigger] p.rules@[i]).head) }
+
+//@fn src/translating/formula_representation/natural.rs :: fn natural
+//@ .ret res
+//@ .attr #[verifier::loop_isolation(false)]
+//@ .spec
+//@     requires small_program(program),
+//@     ensures res matches Some(t) ==> theory_ok(t, program),
+//@ .hint before "let mut formulas = Vec::<fol::Formula>::new();"
+//@     let ghost rules0 = program.rules@;
+//@ .loop 1 as it
+//@     invariant
+//@         it.seq() == rules0, formulas@.len() == it.index@,
+//@         forall|q: int| 0 <= q < it.index@ ==> rule_ok(#[trigger] formulas@[q], rules0[q]),
+//@ .hint before "if let Some(f) = natural_rule(&r)"
+//@     proof { assert(r == rules0[it.index@ as int]); assert(small_head(rules0[it.index@ as int].head)); }
+//@end
+
+// ---- mu: natural where possible, tau* otherwise ---------------------------------------------------------------------------------
+pub mod natural { pub use super::natural_rule; }
+// tau_star_rule and choose_fresh_global_variables carry the contracts PROVED (resp. assumed as a composition) in unit `tau` (C01)
 pub mod tau_star {
     use super::*;
     #[verifier::external_body]
-    pub fn tau_star_rule(r: &asp::Rule, globals: &[String]) -> (f: Formula) ensures f == spec_tau_star_rule(*r, globals@) { unimplemented!() }
+    pub fn tau_star_rule(r: &asp::Rule, globals: &[String]) -> (f: Formula) requires globals_ok(globals@, *r), ensures rule_ok(f, *r) { unimplemented!() }
     #[verifier::external_body]
-    pub fn choose_fresh_global_variables(program: &asp::Program) -> (g: Vec<String>) ensures g@ == spec_globals(*program) { unimplemented!() }
+    pub fn choose_fresh_global_variables(program: &asp::Program) -> (g: Vec<String>) ensures program_globals_ok(g@, *program) { unimplemented!() }
 }
-pub open spec fn mu_rule(r: asp::Rule, globals: Seq<String>) -> Formula {
-    match spec_natural_rule(r) { Some(f) => f, None => spec_tau_star_rule(r, globals) }
-}
-pub trait Mu { type Output; fn mu(self) -> Self::Output; }
-impl Mu for asp::Program {
-    type Output = Theory;
+// D19: the trait method `Mu::mu` verified as an inherent method (a trait implementation cannot carry the size precondition)
+impl asp::Program {
 //@fn src/translating/formula_representation/mu.rs :: impl Mu for asp::Program :: fn mu
+//@ .assoc Output=Theory
 //@ .ret r
+//@ .attr #[verifier::loop_isolation(false)]
 //@ .spec
+//@     requires small_program(self),
 //@     ensures
-//@         // C08: mu never fails and translates rule by rule: the natural translation where it exists, tau* otherwise
-//@         r.formulas@.len() == self.rules@.len(),
-//@         forall|i: int| 0 <= i < self.rules@.len() ==> #[trigger] r.formulas@[i] == mu_rule(self.rules@[i], spec_globals(self)),
+//@         // C08: mu never fails; rule by rule its output has the meaning of the rule (the natural translation where it exists, tau* otherwise),
+//@         // hence is HT-equivalent, formula by formula, to the tau* output
+//@         theory_ok(r, self),
 //@ .loop 1 as it
 //@     invariant
 //@         it.seq() == self.rules@,
-//@         globals@ == spec_globals(self),
 //@         formulas@.len() == it.index@,
-//@         forall|i: int| 0 <= i < formulas@.len() ==> #[trigger] formulas@[i] == mu_rule(self.rules@[i], spec_globals(self)),
+//@         forall|q: int| 0 <= q < it.index@ ==> rule_ok(#[trigger] formulas@[q], self.rules@[q]),
+//@ .hint before "match natural::natural_rule(&r)"
+//@     proof { assert(r == self.rules@[it.index@ as int]); assert(small_head(self.rules@[it.index@ as int].head)); assert(globals_ok(globals@, self.rules@[it.index@ as int])); }
 //@end
 }
 
